@@ -299,6 +299,7 @@ impl<'a> Acc<'a> {
                 }
             }
             *r.counters.entry("skipped_ops".into()).or_insert(0) += ex.stats.skipped_ops;
+            *r.counters.entry("handles_dropped_by_unwinding".into()).or_insert(0) += ex.stats.unwinding_drops;
             *r.counters.entry("steps".into()).or_insert(0) += ex.outcome.steps;
             *r.counters.entry("switches".into()).or_insert(0) += ex.outcome.switches;
             *r.counters.entry("preemptions_inside_calls".into()).or_insert(0) += ex.outcome.preempt_in_call;
@@ -453,7 +454,7 @@ pub fn run_prop(
                 let n = ((cases(tier) as f64) * scale).ceil().max(1.0) as u32;
                 let rng = TestRng::from_seed(RngAlgorithm::ChaCha, &seed_bytes(seed, def.id, part.name, shard));
                 let mut runner = TestRunner::new_with_rng(Config { failure_persistence: None, ..Config::default() }, rng);
-                let strat = strategy(tier);
+                let strat = with_unwinding(strategy(tier));
                 acc.rep.systematic_parts.push(part.name.to_string());
                 'scen: for _ in 0..n {
                     let mut sc = match strat.new_tree(&mut runner) {
@@ -524,7 +525,7 @@ pub fn run_prop(
                 };
                 let rng = TestRng::from_seed(RngAlgorithm::ChaCha, &seed_bytes(seed, def.id, part.name, shard));
                 let mut runner = TestRunner::new_with_rng(cfg, rng);
-                let strat = strategy(tier);
+                let strat = with_unwinding(strategy(tier));
                 let cell = RefCell::new(&mut acc);
                 let result = runner.run(&strat, |sc| {
                     let mut a = cell.borrow_mut();
@@ -566,6 +567,14 @@ pub fn run_prop(
     }
     acc.rep.wall_s = t0.elapsed().as_secs_f64();
     acc.rep
+}
+
+/// every generated scenario may have some of its handle drops performed by unwinding
+fn with_unwinding(s: BoxedStrategy<Scenario>) -> BoxedStrategy<Scenario> {
+    use proptest::strategy::Strategy;
+    (s, crate::gen::unwinding_masks())
+        .prop_map(|(sc, (d, e))| crate::gen::apply_unwinding(sc, d, e))
+        .boxed()
 }
 
 /// Re-executes one saved case, bypassing proptest.  Also returns the ids of the known findings
